@@ -25,6 +25,7 @@ type protoRun struct {
 	Events []map[string]interface{} // protoEvents(log), computed while the repository still exists
 	Exit   int
 	Stdout string
+	Stderr string
 	Want   string // the git directory every child must be given ("" = not known)
 }
 
@@ -150,6 +151,16 @@ func protoOpts(args []string) map[string]interface{} {
 	return o
 }
 
+// hasErrorLine: main() reports a failure as a line "error: ..." on stderr.
+func hasErrorLine(stderr string) bool {
+	for _, ln := range strings.Split(stderr, "\n") {
+		if strings.HasPrefix(ln, "error: ") {
+			return true
+		}
+	}
+	return false
+}
+
 func stdoutKind(s string) string {
 	t := strings.TrimSpace(s)
 	switch {
@@ -182,7 +193,7 @@ func validateProto(c *Ctx, label string, runs []protoRun) (acc map[string]bool, 
 				kinds = []string{"scan"}
 			}
 			out = append(out, map[string]interface{}{"id": r.ID, "opts": protoOpts(r.Args), "kinds": kinds, "events": r.Events,
-				"exit": exit, "stdout": stdoutKind(r.Stdout), "want": r.Want})
+				"exit": exit, "stdout": stdoutKind(r.Stdout), "errmsg": hasErrorLine(r.Stderr), "want": r.Want})
 		}
 		return out
 	}
